@@ -183,6 +183,10 @@ func (da *DistributedAllocator) Allocate(ctx context.Context, subscriberID strin
 	var prefix *net.IPNet
 	var epoch uint64
 
+	// A subscriber that already holds an allocation gets the same prefix back;
+	// if re-saving it fails, that allocation must not be rolled back.
+	existed := da.hasLocalAllocation(subscriberID)
+
 	// Use appropriate allocator based on mode
 	if da.mode == PoolModeLease {
 		// Lease mode: use epoch bitmap allocator
@@ -213,11 +217,13 @@ func (da *DistributedAllocator) Allocate(ctx context.Context, subscriberID strin
 	}
 
 	if err := da.saveAllocation(ctx, alloc); err != nil {
-		// Rollback local allocation
-		if da.mode == PoolModeLease {
-			da.epochAllocator.Release(ctx, subscriberID)
-		} else {
-			da.allocator.Release(subscriberID)
+		// Rollback local allocation (only if this call created it)
+		if !existed {
+			if da.mode == PoolModeLease {
+				da.epochAllocator.Release(ctx, subscriberID)
+			} else {
+				da.allocator.Release(subscriberID)
+			}
 		}
 		return nil, fmt.Errorf("save allocation: %w", err)
 	}
@@ -232,6 +238,8 @@ func (da *DistributedAllocator) AllocateWithMAC(ctx context.Context, subscriberI
 
 	var prefix *net.IPNet
 	var epoch uint64
+
+	existed := da.hasLocalAllocation(subscriberID)
 
 	// Use appropriate allocator based on mode
 	if da.mode == PoolModeLease {
@@ -260,15 +268,26 @@ func (da *DistributedAllocator) AllocateWithMAC(ctx context.Context, subscriberI
 	}
 
 	if err := da.saveAllocation(ctx, alloc); err != nil {
-		if da.mode == PoolModeLease {
-			da.epochAllocator.Release(ctx, subscriberID)
-		} else {
-			da.allocator.Release(subscriberID)
+		if !existed {
+			if da.mode == PoolModeLease {
+				da.epochAllocator.Release(ctx, subscriberID)
+			} else {
+				da.allocator.Release(subscriberID)
+			}
 		}
 		return nil, fmt.Errorf("save allocation: %w", err)
 	}
 
 	return prefix, nil
+}
+
+// hasLocalAllocation reports whether the in-memory allocator already holds an
+// allocation for the subscriber. The caller holds da.mu.
+func (da *DistributedAllocator) hasLocalAllocation(subscriberID string) bool {
+	if da.mode == PoolModeLease {
+		return da.epochAllocator.Lookup(subscriberID) != nil
+	}
+	return da.allocator.Lookup(subscriberID) != nil
 }
 
 // Renew updates the epoch for an existing allocation (lease mode).
